@@ -189,7 +189,7 @@ def roundtrip(
     except graphs.Skip:
         return True
     # explicit meta flag on a symbolic node (None / True / False)
-    flag = [None, True, False][pick(meta, 3)]
+    flag = [None, True, False][SHARD["meta"]] if SHARD.get("meta") is not None else [None, True, False][pick(meta, 3)]
     k = pick(at, len(g.nodes))
     if flag is not None:
         if g.nodes[k].__xpm__._sealed or g.nodes[k] is g.root:
@@ -300,6 +300,12 @@ def conditions(tier):
             if nstr == 0:
                 lens_list = [[]]
             for lens in lens_list:
-                conds.append({"name": f"roundtrip/{sk}/{via}" + ("-" + "".join(map(str, lens)) if lens else ""), "func": "roundtrip", "shard": {"sk": sk, "via": via, "lens": lens, "small_ints": 1}, "timeout": tmo})
+                for mi in (0, 1, 2):
+                    if mi and sk in ("flat", "floats", "pair", "nestedlists", "tasklist", "taskself"):
+                        continue  # no unsealed sub-configuration to flag
+                    shard = {"sk": sk, "via": via, "lens": lens, "small_ints": 1, "meta": mi}
+                    if sk == "shared":
+                        shard["fixed_sels"] = [1] * 8
+                    conds.append({"name": f"roundtrip/{sk}/{via}" + ("-" + "".join(map(str, lens)) if lens else "") + f"/meta{mi}", "func": "roundtrip", "shard": shard, "timeout": tmo})
     conds.append({"name": "files", "func": "files", "shard": {}, "timeout": 300})
     return conds
